@@ -23,9 +23,9 @@ LEXINV = ("variable names reaching Var start with an ASCII upper-case letter: th
           "(re-verified by C16.a / C10.a)")
 ROWS = [
     # ---- debug assertions -------------------------------------------------------------
-    (r"^<mach::val::Val as std::fmt::Display>::fmt/diverge:.*debug#1$", "debug-only",
-     "Display of a Return/Next frame marker: PRINT/STR$ only ever format the one value an "
-     "expression leaves; markers are rejected by every operator with TYPE MISMATCH", None),
+    # (the debug assertion in Val's Display was listed here with the reason "PRINT only formats
+    #  the value an expression leaves"; CONT after an error inside the expression refutes it -
+    #  repaired in /repo, see known_findings.json - so the row is gone and the site is unlisted)
     (r"^lang::error::Error::in_column/diverge:.*debug#1$", "debug-only",
      "in_column is only applied to errors fresh from Error::new / stack & conversion errors "
      "(column still 0..0)", None),
